@@ -806,6 +806,11 @@ def run(ctx) -> None:
     check_u15(ctx)
     k14 = check_u14(ctx)
     ctx.floor('U14', k14, 20, '.quantity() reads of input parameters')
+    ctx.rule('U17', 'a result cache in front of the reader keys on the unmodified input text: a request that differs only in a unit token is never '
+                    'answered from the cache of another (C12 L5)')
+    from gxstat.runner import Renamed as _Renamed
+    from rules.c12 import check_l5
+    check_l5(_Renamed(ctx, {'L5': 'U17'}))
     ctx.undecided('what pint parses or computes for a given unit text', 'numerical equality of a run re-expressed in other units (paired-run property)',
                   'list-valued inputs with per-element units')
     ctx.assume('a unit-suffixed input reaches ConvertUnits through ReadParameter only (C07 V3 routing)')
